@@ -44,3 +44,8 @@ Definition bad_auth_spec (cs : list acase) : list nat :=
 Definition hcase := (list hstep * list hprobe)%type.
 Definition bad_hist_spec (hs : list hcase) : list nat :=
   mismatches (fun h : hcase => hist_spec_ok pw_init (fst h) (snd h)) hs 0.
+
+(* listeners on GET /listen: (listener level, ?timeout= (0 = default), triggered event types, delivered event types) *)
+Definition lcase := (Z * Z * list string * list string)%type.
+Definition bad_listen_spec (cs : list lcase) : list nat :=
+  mismatches (fun x : lcase => let '(l, _, tr, dl) := x in listen_spec_ok l tr dl) cs 0.
